@@ -1,5 +1,5 @@
 (* Proofs/StoreProofs.v — the store refines a height-indexed map (C14). *)
-From Coq Require Import String Ascii NArith List Bool Lia.
+From Coq Require Import String Ascii NArith List Bool Lia PeanoNat.
 From Verif Require Import Base.KV Base.Keys Model.Store.
 Import ListNotations.
 Open Scope string_scope.
@@ -398,6 +398,40 @@ Proof.
   cbn [run]. destruct (istep m i) as [m' o]. cbn [fst snd]. destruct (run m' h) as [m'' os]. reflexivity.
 Qed.
 
+(* every operation makes at most one atomic write *)
+Lemma step_writes_le1 m o : length (fst (step m o)) <= 1.
+Proof.
+  destruct o; cbn [step fst]; try (cbn; lia).
+  destruct (c_height m); [destruct (n <=? n0)%N|]; cbn; lia.
+Qed.
+
+(* the specification charges an operation with exactly the writes the store makes *)
+Lemma R_writes m a o : R m a -> length (fst (step m o)) = a_writes a o.
+Proof.
+  intros HR. destruct o; cbn [step fst a_writes]; try reflexivity.
+  assert (Hc : c_height m = Some (a_height a)).
+  { unfold c_height; rewrite (R_height _ _ HR). destruct (N.eqb_spec (a_height a) 0) as [->|]; reflexivity. }
+  rewrite Hc. destruct (n <=? a_height a)%N; reflexivity.
+Qed.
+
+(* a write fault that is met: nothing is written, the result is an error *)
+Lemma fault_step_hit m o k :
+  k < length (fst (step m o)) -> fault_step m o k = ([], RErr).
+Proof.
+  intros Hk. pose proof (step_writes_le1 m o) as Hl. unfold fault_step.
+  destruct (step m o) as [ws r]; cbn [fst] in *.
+  destruct (Nat.ltb_spec k (length ws)); [|lia].
+  assert (k = 0%nat) as -> by lia. reflexivity.
+Qed.
+
+(* a write fault that is not met: the operation runs as usual *)
+Lemma fault_step_miss m o k :
+  length (fst (step m o)) <= k -> fault_step m o k = step m o.
+Proof.
+  intros Hk. unfold fault_step. destruct (step m o) as [ws r]; cbn [fst] in *.
+  destruct (Nat.ltb_spec k (length ws)); [lia | reflexivity].
+Qed.
+
 (* the main refinement statement, from any related pair of states *)
 Lemma refines_from (h : list item) : forall m a past,
   R m a -> from_past a past -> consistent (saves h ++ past) ->
@@ -408,7 +442,7 @@ Proof.
   induction h as [|i h IH]; intros m a past HR Hp Hc.
   - exists []; split; [reflexivity | exact HR].
   - rewrite saves_cons, <- app_assoc in Hc.
-    destruct i as [o| |o k].
+    destruct i as [o| |o k|o k].
     + (* IOp *)
       assert (Hs : forall hd d s, o = OSave hd d s -> save_ok a hd).
       { intros hd d s ->. eapply save_ok_of_consistent; [apply HR | exact Hp |].
@@ -437,9 +471,7 @@ Proof.
         eapply consistent_sub; [exact Hc|]. cbn [item_saves item_op op_saves app].
         intros x [<-|Hx]; [left; reflexivity | right; apply in_or_app; right; exact Hx]. }
       destruct (R_step m a o HR Hs) as [_ HR'].
-      assert (Hlen : length (fst (step m o)) <= 1).
-      { destruct o; cbn [step fst]; try (cbn; lia).
-        destruct (c_height m); [destruct (n <=? n0)%N|]; cbn; lia. }
+      assert (Hlen : length (fst (step m o)) <= 1) by apply step_writes_le1.
       destruct (crash_single m (fst (step m o)) k Hlen) as [Ec|Ec].
       * (* nothing happened *)
         destruct (IH m a past HR Hp) as [hp [E1 E2]].
@@ -456,6 +488,34 @@ Proof.
         exists (true :: hp). rewrite run_cons. cbn [istep a_run fst snd]. rewrite Ec.
         destruct (a_run (fst (a_step a o)) h hp) as [a'' os]. cbn [fst snd] in *.
         split; [rewrite E1; reflexivity | exact E2].
+    + (* IFault: met = nothing written, error, the specification state is unchanged; not met = an ordinary operation *)
+      pose proof (R_writes m a o HR) as Hw.
+      destruct (Nat.ltb_spec k (length (fst (step m o)))) as [Hhit|Hmiss].
+      * destruct (IH m a past HR Hp) as [hp [E1 E2]].
+        { eapply consistent_sub; [exact Hc|]. intros x Hx; apply in_or_app; right; exact Hx. }
+        exists hp. rewrite run_cons. cbn [istep a_run]. unfold a_fault_step.
+        rewrite (fault_step_hit m o k Hhit). rewrite <- Hw.
+        destruct (Nat.ltb_spec k (length (fst (step m o)))); [|lia].
+        cbn [fst snd]. rewrite aw_nil.
+        destruct (a_run a h hp) as [a'' os]. cbn [fst snd] in *.
+        split; [rewrite E1; reflexivity | exact E2].
+      * assert (Hs : forall hd d s, o = OSave hd d s -> save_ok a hd).
+        { intros hd d s ->. eapply save_ok_of_consistent; [apply HR | exact Hp |].
+          eapply consistent_sub; [exact Hc|]. cbn [item_saves item_op op_saves app].
+          intros x [<-|Hx]; [left; reflexivity | right; apply in_or_app; right; exact Hx]. }
+        destruct (R_step m a o HR Hs) as [Ho HR'].
+        destruct (IH (apply_writes m (fst (step m o))) (fst (a_step a o)) (op_saves o ++ past) HR') as [hp [E1 E2]].
+        { apply from_past_step, Hp. }
+        { eapply consistent_sub; [exact Hc|]. cbn [item_saves item_op].
+          intros x Hx. apply in_app_or in Hx as [Hx|Hx]; [apply in_or_app; right; apply in_or_app; left; exact Hx|].
+          apply in_app_or in Hx as [Hx|Hx]; [apply in_or_app; left; exact Hx | apply in_or_app; right; apply in_or_app; right; exact Hx]. }
+        exists hp. rewrite run_cons. cbn [istep a_run]. unfold a_fault_step.
+        rewrite (fault_step_miss m o k Hmiss). rewrite <- Hw.
+        destruct (Nat.ltb_spec k (length (fst (step m o)))); [lia|].
+        destruct (step m o) as [ws r] eqn:Es. cbn [fst snd] in *.
+        destruct (a_step a o) as [a' x] eqn:Ea. cbn [fst snd] in *.
+        destruct (a_run a' h hp) as [a'' os]. cbn [fst snd] in *.
+        split; [rewrite E1, Ho; reflexivity | exact E2].
 Qed.
 
 Theorem store_refines (h : list item) :
@@ -476,7 +536,7 @@ Proof. destruct o; cbn [a_step fst a_height]; lia. Qed.
 Lemma a_run_height h : forall a hp, (a_height a <= a_height (fst (a_run a h hp)))%N.
 Proof.
   induction h as [|i h IH]; intros a hp; cbn [a_run fst]; [lia|].
-  destruct i as [o| |o k].
+  destruct i as [o| |o k|o k].
   - destruct (a_step a o) as [a' x] eqn:E. specialize (IH a' hp).
     destruct (a_run a' h hp) as [a'' os]; cbn [fst] in *.
     pose proof (a_step_height a o) as H; rewrite E in H; cbn [fst] in H. lia.
@@ -487,6 +547,12 @@ Proof.
       * specialize (IH (fst (a_step a o)) hp). pose proof (a_step_height a o).
         destruct (a_run (fst (a_step a o)) h hp); cbn [fst] in *; lia.
       * specialize (IH a hp). destruct (a_run a h hp); cbn [fst] in *; exact IH.
+  - destruct (a_fault_step a o k) as [a' x] eqn:E. specialize (IH a' hp).
+    destruct (a_run a' h hp) as [a'' os]; cbn [fst] in *.
+    assert (a_height a <= a_height a')%N; [|lia].
+    unfold a_fault_step in E. destruct (k <? a_writes a o)%nat.
+    + inversion E; subst; lia.
+    + pose proof (a_step_height a o) as H; rewrite E in H; exact H.
 Qed.
 
 (* concrete reading: Height() never returns less than before, whatever the history does *)
@@ -557,12 +623,18 @@ Qed.
 Lemma c_height_istep m i n :
   c_height m = Some n -> exists n', c_height (fst (istep m i)) = Some n' /\ (n <= n')%N.
 Proof.
-  intros Hh. destruct i as [o| |o k]; cbn [istep].
+  intros Hh. destruct i as [o| |o k|o k]; cbn [istep].
   - destruct (step m o) as [ws r] eqn:E. cbn [fst].
     destruct (c_height_prefix m o (length ws) n Hh) as [n' [H1 H2]].
     rewrite E in H1; cbn [fst] in H1. rewrite firstn_all in H1. eauto.
   - exists n; split; [exact Hh | lia].
   - cbn [fst]. unfold crash_after. apply c_height_prefix, Hh.
+  - (* IFault: what is written is a prefix of the operation's writes *)
+    unfold fault_step. destruct (step m o) as [ws r] eqn:E.
+    destruct (k <? length ws)%nat; cbn [fst].
+    + pose proof (c_height_prefix m o k n Hh) as H. rewrite E in H; exact H.
+    + destruct (c_height_prefix m o (length ws) n Hh) as [n' [H1 H2]].
+      rewrite E in H1; cbn [fst] in H1. rewrite firstn_all in H1. eauto.
 Qed.
 
 Lemma c_height_run h : forall m n,
@@ -615,3 +687,58 @@ Theorem save_atomic (m : img) hd d s k :
   crash_after k m (fst (step m (OSave hd d s))) = m \/
   crash_after k m (fst (step m (OSave hd d s))) = apply_writes m (fst (step m (OSave hd d s))).
 Proof. apply crash_single. cbn; auto. Qed.
+
+(* ---- transient write faults ------------------------------------------------------------------- *)
+(* a write fault that is met: the operation returns an error and the database is exactly what it was *)
+Theorem fault_no_effect (m : img) (o : op) (k : nat) :
+  k < length (fst (step m o)) -> istep m (IFault o k) = (m, Some RErr).
+Proof. intros Hk. cbn [istep]. rewrite (fault_step_hit m o k Hk). reflexivity. Qed.
+
+(* a write fault that is not met (the operation makes fewer write attempts): an ordinary operation *)
+Theorem fault_not_met (m : img) (o : op) (k : nat) :
+  length (fst (step m o)) <= k -> istep m (IFault o k) = istep m (IOp o).
+Proof. intros Hk. cbn [istep]. rewrite (fault_step_miss m o k Hk). reflexivity. Qed.
+
+Lemma setheight_written m n cur :
+  c_height m = Some cur ->
+  snd (step m (OSetHeight n)) = RUnit /\
+  exists n', c_height (apply_writes m (fst (step m (OSetHeight n)))) = Some n' /\ (n <= n')%N.
+Proof.
+  intros Hh. cbn [step]. rewrite Hh. destruct (N.leb_spec n cur) as [Hle|Hlt]; cbn [fst snd].
+  - split; [reflexivity|]. exists cur; split; [exact Hh | exact Hle].
+  - split; [reflexivity|]. exists n; split; [|lia].
+    unfold c_height. rewrite aw_put, kv_get_put_same. reflexivity.
+Qed.
+
+(* an ACKNOWLEDGED SetHeight is durable: if SetHeight(n) returned without error - as a plain operation or with a write
+   fault armed that it did not meet - then after ANY continuation (operations, reopenings, crashes, further faults) the
+   recorded height is at least n *)
+Theorem acked_height_durable (h1 : list item) (i : item) (h2 : list item) (n : N) :
+  item_op i = Some (OSetHeight n) -> snd (istep (final h1) i) = Some RUnit ->
+  exists n', c_height (final (h1 ++ i :: h2)) = Some n' /\ (n <= n')%N.
+Proof.
+  intros Hi Hack.
+  destruct (c_height_run h1 [] 0%N eq_refl) as [cur [Hcur _]]. fold (final h1) in Hcur.
+  assert (Hstep : exists n1, c_height (fst (istep (final h1) i)) = Some n1 /\ (n <= n1)%N).
+  { destruct (setheight_written (final h1) n cur Hcur) as [Hr Hw].
+    destruct i as [o| |o k|o k]; cbn [item_op] in Hi; try discriminate Hi; inversion Hi; subst o.
+    - cbn [istep]. destruct (step (final h1) (OSetHeight n)) as [ws r]; cbn [fst snd] in *. exact Hw.
+    - cbn [istep snd] in Hack. discriminate Hack.
+    - destruct (Nat.ltb_spec k (length (fst (step (final h1) (OSetHeight n))))) as [Hhit|Hmiss].
+      + rewrite (fault_no_effect _ _ _ Hhit) in Hack. cbn [snd] in Hack. discriminate Hack.
+      + rewrite (fault_not_met _ _ _ Hmiss). cbn [istep].
+        destruct (step (final h1) (OSetHeight n)) as [ws r]; cbn [fst snd] in *. exact Hw. }
+  destruct Hstep as [n1 [H1 L1]].
+  destruct (c_height_run h2 _ _ H1) as [n2 [H2 L2]].
+  exists n2. split; [|lia].
+  unfold final. rewrite run_app. rewrite run_cons. cbn [fst]. exact H2.
+Qed.
+
+(* a REPORTED height is durable: whatever Height() returned is never lost by any continuation *)
+Theorem reported_height_durable (h1 h2 : list item) (n : N) :
+  snd (step (final h1) OHeight) = RHeight n ->
+  exists n', c_height (final (h1 ++ h2)) = Some n' /\ (n <= n')%N.
+Proof.
+  intros Hr. destruct (height_monotone h1 h2) as [n1 [n2 [H1 [H2 L]]]].
+  cbn [step snd] in Hr. rewrite H1 in Hr. inversion Hr; subst. eauto.
+Qed.
